@@ -92,6 +92,12 @@ def range_bound_rule(ctx, oid, key, side):
             verdicts.append(("undecided", ins, "time component of the bound is not the node's own %s"
                              % ("start time" if side == "pred" else "end time")))
             continue
+        if any(d.instr is not None and d.instr.kind == "call" and d.instr.decl in ("core::ops::arith::Sub::sub", "core::ops::arith::Add::add")
+               for d in tsl["defs"]):
+            verdicts.append(("bad", ins, "the time bound of the range is shifted by arithmetic: nodes between the shifted bound and the node's own "
+                             "%s are cut off before can_reach is asked (a dead-head connection can be shorter than a same-location turnaround)"
+                             % ("start time" if side == "pred" else "end time")))
+            continue
         idx_src = direct_call_source(fd, i_op)
         if side == "pred":
             if rk == "to" and idx_src == SMALLEST:
